@@ -173,8 +173,13 @@ def build(family, seed):
     rng = random.Random(seed * 7919 + {'rand': 1, 'lib': 2, 'beh': 3, 'alias': 4, 'bad': 5}[family])
     with quiet():
         if family == 'rand':
-            hw, ins, info = designs.build_random(rng, n_blocks=rng.randint(3, 10), n_inputs=rng.randint(1, 3))
-            return Circ(family, seed, hw, ins)
+            for attempt in range(8):          # a library constructor may reject a random configuration: legal circuits only
+                try:
+                    hw, ins, info = designs.build_random(rng, n_blocks=rng.randint(3, 10), n_inputs=rng.randint(1, 3))
+                    return Circ(family, seed, hw, ins)
+                except Exception:
+                    rng = random.Random(seed * 7919 + 1 + 104729 * (attempt + 1))
+            raise RuntimeError('no legal random design for seed %d' % seed)
         hw = py4hw.HWSystem()
         w = rng.choice([1, 2, 3, 8, 13])
         a = hw.wire('a', w); b = hw.wire('b', w)
